@@ -16,8 +16,10 @@ import (
 	"regexp"
 	"runtime"
 	"sort"
+	"strconv"
 	"strings"
 	"sync"
+	"syscall"
 	"time"
 
 	"github.com/go-faster/errors"
@@ -72,6 +74,7 @@ type outcome struct {
 	hasTests bool
 	pkg      string
 	specHash string
+	source   string // offending generated lines (goformat)
 }
 
 func (j *Job) generate() (*genlab.Result, string) {
@@ -96,7 +99,10 @@ func rejectClass(res *genlab.Result, own []string) (class string, bad bool) {
 	probe := strings.ToLower(msg)
 	for _, s := range own {
 		if s != "" {
-			probe = strings.ReplaceAll(probe, strings.ToLower(s), "")
+			q := strconv.Quote(s)
+			for _, form := range []string{s, q[1 : len(q)-1], strings.Trim(strconv.QuoteToASCII(s), `"`)} {
+				probe = strings.ReplaceAll(probe, strings.ToLower(form), "")
+			}
 		}
 	}
 	if strings.TrimSpace(msg) == "" {
@@ -271,8 +277,6 @@ func (b *builder) compile(test bool, pkgs []string) (fail map[string]string, ini
 	fail = map[string]string{}
 	initFail = map[string]bool{}
 	remaining := append([]string(nil), pkgs...)
-	t0 := time.Now()
-	defer func() { b.wall += time.Since(t0) }()
 	for round := 0; len(remaining) > 0; round++ {
 		var args []string
 		if test {
@@ -283,7 +287,11 @@ func (b *builder) compile(test bool, pkgs []string) (fail map[string]string, ini
 		for _, p := range remaining {
 			args = append(args, "./"+p)
 		}
+		t0 := time.Now()
 		out, e := genlab.RunIn(b.mod.Dir, 120*time.Minute, b.env, "go", args...)
+		if os.Getenv("C02_DEBUG") != "" {
+			fmt.Fprintf(os.Stderr, "debug: go %s round %d over %d packages: %.1fs err=%v\n", args[0], round, len(remaining), time.Since(t0).Seconds(), e)
+		}
 		if e == nil {
 			return fail, initFail, nil
 		}
@@ -438,6 +446,41 @@ func diagClass(diag string) string {
 	return "other"
 }
 
+// pinModule rewrites the scratch module's go.mod to the complete requirement
+// list of the tree under test (plus the replace of ogen itself), so that no
+// go command ever has to update it: go build and go test run concurrently.
+func pinModule(m *genlab.Module) error {
+	b, err := os.ReadFile(filepath.Join(ev.RepoDir(), "go.mod"))
+	if err != nil {
+		return err
+	}
+	var out []string
+	for _, l := range strings.Split(string(b), "\n") {
+		switch {
+		case strings.HasPrefix(l, "module "):
+			l = "module scratch"
+		case strings.HasPrefix(l, "toolchain "):
+			continue
+		}
+		out = append(out, l)
+	}
+	out = append(out, "require github.com/ogen-go/ogen v0.0.0", "", "replace github.com/ogen-go/ogen => "+ev.RepoDir(), "")
+	if err := os.WriteFile(filepath.Join(m.Dir, "go.mod"), []byte(strings.Join(out, "\n")), 0o644); err != nil {
+		return err
+	}
+	sum, err := os.ReadFile(filepath.Join(ev.RepoDir(), "go.sum"))
+	if err != nil {
+		return err
+	}
+	if err := os.WriteFile(filepath.Join(m.Dir, "go.sum"), sum, 0o644); err != nil {
+		return err
+	}
+	if out, err := m.Go(10*time.Minute, "build", "."); err != nil {
+		return fmt.Errorf("scratch module does not build: %v\n%s", err, out)
+	}
+	return nil
+}
+
 // ---------------------------------------------------------------- main
 
 type witness struct {
@@ -450,6 +493,7 @@ type witness struct {
 	Files       []string `json:"files_written,omitempty"`
 	Command     string   `json:"failing_command,omitempty"`
 	Diagnostics string   `json:"compiler_diagnostics,omitempty"`
+	Source      string   `json:"offending_generated_source,omitempty"`
 	DiagClass   string   `json:"diagnostic_class,omitempty"`
 }
 
@@ -462,10 +506,71 @@ type runner struct {
 	out   map[string]map[string]int // place-or-kind -> outcome -> n
 	rejEx map[string]string         // rejection class -> example text
 	// violations of single-place hostile jobs, for attributing multi-place ones
-	singleViol map[string]string // vkind|place/class -> signature
+	singleViol map[string]string // slot -> signature of the violation it causes alone
+	pending    []pendingViol     // violations of multi-place jobs, not yet attributed
+	final      bool
 	verdicts   map[string]verdict
 	genWall    time.Duration
 	sampled    int
+}
+
+type pendingViol struct {
+	j                *Job
+	o                outcome
+	vkind, cmd, diag string
+}
+
+func slotKey(s Slot) string { return s.Place + "\x00" + strings.Join(s.Strs, "\x00") }
+
+// reduceMulti tries every slot of a violating multi-place job on its own
+// (same feature set). A multi-place violation that one of its slots causes
+// alone is reported under that slot's signature only.
+func (x *runner) reduceMulti(seq int) error {
+	pend := x.pending
+	x.pending = nil
+	var jobs []*Job
+	seen := map[string]bool{}
+	for _, p := range pend {
+		for _, s := range p.j.Slots {
+			k := slotKey(s) + "|" + p.j.Feat.key()
+			if seen[k] {
+				continue
+			}
+			seen[k] = true
+			if _, known := x.singleViol[slotKey(s)]; known {
+				continue
+			}
+			j, err := hostileJob("hostile", []Slot{s}, p.j.Feat, fmt.Sprintf("reduced/%s/%s#%d", s.Place, s.Class, len(jobs)))
+			if err != nil {
+				return err
+			}
+			seq++
+			j.Seq = seq
+			jobs = append(jobs, j)
+		}
+	}
+	x.r.Count("multi_place_reduction_jobs", len(jobs))
+	if len(jobs) > 0 {
+		if err := x.runBatch(jobs, false); err != nil {
+			return err
+		}
+	}
+	x.final = true
+	for _, p := range pend {
+		explained := false
+		for _, s := range p.j.Slots {
+			if _, ok := x.singleViol[slotKey(s)]; ok {
+				explained = true
+			}
+		}
+		if explained {
+			x.r.Count("multi_place_violations_caused_by_one_place_alone", 1)
+			x.tally(p.j, "violation:"+p.vkind+"(one place alone)")
+			continue
+		}
+		x.violate(p.j, p.o, p.vkind, p.cmd, p.diag)
+	}
+	return nil
 }
 
 type verdict struct {
@@ -494,16 +599,9 @@ func (x *runner) signature(j *Job, vkind, dclass string) string {
 	case "hostile":
 		return vkind + ":" + j.place()
 	case "multi":
-		x.mu.Lock()
-		defer x.mu.Unlock()
-		for _, s := range j.Slots {
-			if sig, ok := x.singleViol[vkind+"|"+s.Place+"/"+s.Class]; ok {
-				return sig
-			}
-		}
 		var ps []string
 		for _, s := range j.Slots {
-			ps = append(ps, s.Place+"/"+s.Class)
+			ps = append(ps, s.Place)
 		}
 		sort.Strings(ps)
 		return vkind + ":multi-place/" + strings.Join(ps, "+") + suffix(dclass)
@@ -519,6 +617,13 @@ func suffix(s string) string {
 }
 
 func (x *runner) violate(j *Job, o outcome, vkind, cmd, diag string) {
+	if j.Kind == "multi" && !x.final {
+		// decided after the slots were tried one at a time (reduceMulti)
+		x.mu.Lock()
+		x.pending = append(x.pending, pendingViol{j, o, vkind, cmd, diag})
+		x.mu.Unlock()
+		return
+	}
 	dclass := ""
 	if diag != "" {
 		dclass = diagClass(diag)
@@ -526,10 +631,10 @@ func (x *runner) violate(j *Job, o outcome, vkind, cmd, diag string) {
 	sig := x.signature(j, vkind, dclass)
 	if j.Kind == "hostile" && len(j.Slots) == 1 {
 		x.mu.Lock()
-		x.singleViol[vkind+"|"+j.Slots[0].Place+"/"+j.Slots[0].Class] = sig
+		x.singleViol[slotKey(j.Slots[0])] = sig
 		x.mu.Unlock()
 	}
-	w := witness{Job: *j, SpecHash: o.specHash, Stage: o.stage, Outcome: vkind, Error: clip(o.err, 3000), PanicAt: o.panicAt, Files: o.files, Command: cmd, Diagnostics: clip(diag, 3000), DiagClass: dclass}
+	w := witness{Job: *j, SpecHash: o.specHash, Stage: o.stage, Outcome: vkind, Error: clip(o.err, 3000), PanicAt: o.panicAt, Files: o.files, Command: cmd, Diagnostics: clip(diag, 3000), DiagClass: dclass, Source: clip(o.source, 2000)}
 	if j.Path != "" {
 		w.Job.Text = ""
 	}
@@ -540,6 +645,29 @@ func (x *runner) violate(j *Job, o outcome, vkind, cmd, diag string) {
 	sum := fmt.Sprintf("%s [%s] features=%s: %s: %s", j.ID, describeSlots(j.Slots), j.Feat.key(), vkind, clip(what, 400))
 	x.r.Violate(sig, sum, w)
 	x.tally(j, "violation:"+vkind)
+}
+
+var dumpPos = regexp.MustCompile(`(oas_\w+\.go):(\d+):(\d+)`)
+
+// dumpContext returns the lines of <file>.dump around the position goimports reported.
+func dumpContext(errText, dir string) string {
+	m := dumpPos.FindStringSubmatch(errText)
+	if m == nil {
+		return ""
+	}
+	b, err := os.ReadFile(filepath.Join(dir, m[1]+".dump"))
+	if err != nil {
+		return ""
+	}
+	line, _ := strconv.Atoi(m[2])
+	ls := strings.Split(string(b), "\n")
+	var out []string
+	for i := line - 3; i <= line+1; i++ {
+		if i >= 0 && i < len(ls) {
+			out = append(out, fmt.Sprintf("%s:%d: %s", m[1], i+1, clip(ls[i], 300)))
+		}
+	}
+	return strings.Join(out, "\n")
 }
 
 func describeSlots(ss []Slot) string {
@@ -594,6 +722,16 @@ func (x *runner) runBatch(jobs []*Job, verbose bool) error {
 				}
 			}
 		}
+		if keep := os.Getenv("C02_KEEP"); keep != "" {
+			// development aid: keep document and written files for inspection
+			d := filepath.Join(keep, fmt.Sprintf("p%05d", j.Seq))
+			os.MkdirAll(d, 0o755)
+			os.WriteFile(filepath.Join(d, "spec.json"), []byte(j.Text), 0o644)
+			os.WriteFile(filepath.Join(d, "outcome.txt"), []byte(j.ID+"\n"+o.stage+" "+o.kind+" "+o.class+o.vkind+"\n"+o.err+"\n"), 0o644)
+			for n, b := range res.FS.Files {
+				os.WriteFile(filepath.Join(d, n), b, 0o644)
+			}
+		}
 		outs[i] = o
 		r.Case(h + "|" + j.Feat.key())
 		if verbose {
@@ -604,12 +742,27 @@ func (x *runner) runBatch(jobs []*Job, verbose bool) error {
 		}
 	})
 	x.genWall += time.Since(t0)
-	// goimports failures leave <file>.dump in the working directory
+	// goimports failures leave <file>.dump in the working directory; parallel jobs
+	// overwrite each other's dumps, so each failing job is repeated on its own to
+	// read the lines goimports complained about
+	for i, j := range jobs {
+		if outs[i].vkind == "goformat" {
+			old, _ := filepath.Glob(filepath.Join(x.mod.Dir, "*.dump"))
+			for _, d := range old {
+				os.Remove(d)
+			}
+			res, _ := j.generate()
+			outs[i].source = dumpContext(res.ErrText(), x.mod.Dir)
+			r.Count("dump_files_left_in_cwd_by_generator", 1)
+			if verbose {
+				fmt.Printf("offending generated source (from the .dump file the generator left in its working directory):\n%s\n", outs[i].source)
+			}
+		}
+	}
 	dumps, _ := filepath.Glob(filepath.Join(x.mod.Dir, "*.dump"))
 	for _, d := range dumps {
 		os.Remove(d)
 	}
-	r.Count("dump_files_left_in_cwd_by_generator", len(dumps))
 
 	// decide the generation half
 	var toBuild, toTest []string
@@ -655,20 +808,23 @@ func (x *runner) runBatch(jobs []*Job, verbose bool) error {
 			}
 		}
 	}
-	// the compiler
-	fail, _, err := x.b.compile(false, toBuild)
-	if err != nil {
-		return err
+	// the compiler: go build over everything and, at the same time, go test
+	// -run '^$' over the packages that have test files
+	var fail, tfail map[string]string
+	var initFail map[string]bool
+	var berr, terr error
+	var wg sync.WaitGroup
+	tc := time.Now()
+	defer func() { x.b.wall += time.Since(tc) }()
+	wg.Add(2)
+	go func() { defer wg.Done(); fail, _, berr = x.b.compile(false, toBuild) }()
+	go func() { defer wg.Done(); tfail, initFail, terr = x.b.compile(true, toTest) }()
+	wg.Wait()
+	if berr != nil {
+		return berr
 	}
-	var testable []string
-	for _, p := range toTest {
-		if _, bad := fail[p]; !bad {
-			testable = append(testable, p)
-		}
-	}
-	tfail, initFail, err := x.b.compile(true, testable)
-	if err != nil {
-		return err
+	if terr != nil {
+		return terr
 	}
 	for _, p := range toBuild {
 		o := outs[byPkg[p]]
@@ -742,6 +898,10 @@ func Main(args []string) int {
 		return 2
 	}
 	defer cleanup()
+	if err := pinModule(mod); err != nil {
+		fmt.Println("ERROR", err)
+		return 2
+	}
 	cacheDir, cleanCache := ev.Scratch("c02cache")
 	defer cleanCache()
 	x := &runner{r: r, mod: mod, rej: map[string]map[string]int{}, out: map[string]map[string]int{}, rejEx: map[string]string{}, singleViol: map[string]string{}, verdicts: map[string]verdict{}}
@@ -750,6 +910,7 @@ func Main(args []string) int {
 	if replay != nil {
 		j := replay.Job
 		j.Seq = 1
+		x.final = true
 		if j.Feat.Features == nil {
 			j.Feat.Features = []string{}
 		}
@@ -796,6 +957,15 @@ func Main(args []string) int {
 			x.b.trim()
 		}
 	}
+	if err := x.reduceMulti(len(jobs)); err != nil {
+		fmt.Println("ERROR", err)
+		return 2
+	}
+	var ru, rc syscall.Rusage
+	syscall.Getrusage(syscall.RUSAGE_SELF, &ru)
+	syscall.Getrusage(syscall.RUSAGE_CHILDREN, &rc)
+	r.Set("cpu_s_generation_in_process", ru.Utime.Sec+ru.Stime.Sec)
+	r.Set("cpu_s_go_toolchain_children", rc.Utime.Sec+rc.Stime.Sec)
 	kinds := map[string]int{}
 	for _, j := range jobs {
 		kinds[j.Kind]++
